@@ -238,6 +238,27 @@ func ruleC04Guard(c *Checker) {
 					samePos = true
 				}
 			}
+			// … and spelled so that the validator's own root handling applies to it exactly once: the path
+			// the constructor built is dst joined with the name, relative when dst is — handed over as it
+			// is, the validator joins it onto the absolute root a second time (out/out/l for dst "out")
+			if posArg != nil {
+				once := false
+				for w := range p.backSlice(posArg, 0) {
+					cl, ok := w.(*ssa.Call)
+					if !ok {
+						continue
+					}
+					if isFunc(calleeObj(cl), "path/filepath", "Abs") {
+						once = true
+					}
+					if isFunc(calleeObj(cl), "path/filepath", "Rel") && len(cl.Call.Args) == 2 {
+						if prm, ok := p.canonX(cl.Call.Args[0]).(*ssa.Parameter); ok && prm.Parent() == u.Unpack {
+							once = true
+						}
+					}
+				}
+				c.check(once, R, fn, "validated position relative to dst or absolute", pos, "filepath.Rel(dst, path) or filepath.Abs", "the validator is handed the constructor's path as it is (dst joined with the entry name): with a relative destination that path is relative and the validator joins it onto the absolute root again — the link is judged as if it lay deeper than it does, and a target that climbs out of dst is accepted")
+			}
 			c.check(samePos, R, fn, "validated position = created position", pos, "the validator's position argument is computed from the path the link is created at", "the validator is told a position that is not computed from the path handed to os.Symlink (e.g. the raw header name): for an entry named /a/l the link is created at dst/a/l but its target is resolved from /a, so a link pointing outside dst is accepted")
 		}
 		c.check(sameTarget, R, fn, "validated target = created target", pos, "the validator is given the very target string that Symlink receives", "the string validated is not the string handed to os.Symlink")
